@@ -85,6 +85,14 @@ Definition c27_holds (c : pcase) : bool :=
   (if (i_status c =? 0) && (i_ret c =? -1) && negb (has_throw_event (i_log c)) then c27_complete (p_cfg c) (i_log c) else true) &&
   negb (i_status c =? 1).                      (* a deadlock = pipeline() never returns *)
 
-(* 0 agree & property holds; 1 model and implementation differ, property holds; 2 property fails on the implementation *)
+(* the real pipeline is still running when the budget is exhausted although the model, on the same schedule, has returned:
+   a stall (e.g. a slot that is never released) -- reported with the schedule as replay *)
+Definition stalls (c : pcase) : bool :=
+  (i_status c =? 2) && (let '(_, _, st) := run_pipe (p_fuel c) (p_cfg c) (p_sched c) in status_code st =? 0).
+
+(* 0 agree & property holds; 1 model and implementation differ, property holds; 2 property fails on the implementation;
+   3 the implementation stalls where the model returns *)
 Definition judge_c27 (c : pcase) : Z :=
-  if negb (c27_holds c) then 2 else if agrees c then 0 else 1.
+  if negb (c27_holds c) then 2 else if agrees c then 0 else if stalls c then 3 else 1.
+(* native histories (no schedule): only the executable property *)
+Definition judge_c27n (c : pcase) : Z := if c27_holds c then 0 else 2.
